@@ -20,7 +20,7 @@ from pydantic import BaseModel, Field, computed_field
 from pydjinni.generator.cpp.cpp.comment_renderer import DoxygenCommentRenderer
 from pydjinni.generator.cpp.cpp.config import CppConfig
 from pydjinni.generator.cpp.cpp.keywords import keywords
-from pydjinni.generator.filters import headers, quote
+from pydjinni.generator.filters import headers, quote, string_literal
 from pydjinni.generator.validator import validate
 from pydjinni.parser.ast import Parameter, Record, Interface, Function, Enum, ErrorDomain, Flags
 from pydjinni.parser.base_models import (
@@ -53,7 +53,7 @@ class CppExternalType(BaseModel):
 def deprecated(decl: BaseCommentModel, prefix: str = "", postfix: str = ""):
     message = ""
     if isinstance(decl.deprecated, str):
-        message = '("' + decl.deprecated.replace('\\', r'\\').replace('\n', r'\n').replace('"', r'\"') + '")'
+        message = '(' + string_literal(decl.deprecated) + ')'
     return f"{prefix}[[deprecated{message}]]{postfix}" if decl.deprecated else ""
 
 
